@@ -485,6 +485,12 @@ def _monitor(case: dict, tr: dict) -> list[Violation]:
     wl_interval = None
     draws = 0
     gated: list = []                # replies whose handler may be suspended in disconnect(): {tk, rid, ok}
+
+    def pick_reply(tk, rid):
+        # the not yet answered reply (handler run as a task) that a result event answers: first one sent while this
+        # very request was registered, else one sent for the ticket when no such request existed (yet)
+        c = [x for x in gated if x['tk'] == tk and not x['answered']]
+        return next((x for x in c if x['rid'] == rid), c[0] if c else None)
     if tr['tail'].get('harness'):
         bad('C18-harness', 'the case could not be run to the end: ' + tr['tail']['harness'])
         return vs
@@ -597,7 +603,7 @@ def _monitor(case: dict, tr: dict) -> list[Violation]:
                 # a result reported while the loop runs: it must answer a gated reply with this ticket, and the
                 # request must be registered at the moment of the event (events of one step are in order)
                 r = reqs.get(rid)
-                g = next((x for x in gated if x['tk'] == tk and not x['answered']), None)
+                g = pick_reply(tk, rid)
                 if g is None:
                     bad('C18-result-unsolicited', f'{where}: SearchResultEvent without a reply', observed=[t, tk])
                     continue
@@ -669,7 +675,7 @@ def _monitor(case: dict, tr: dict) -> list[Violation]:
     # gated replies: anything reported only after the last op (the harness releases every gate at the end)
     for tt, kind, tk, rid, stype, rtk in t.get('late_events', []):
         r = reqs.get(rid)
-        g = next((x for x in gated if x['tk'] == tk and not x['answered']), None)
+        g = pick_reply(tk, rid)
         if kind == 'R' and g is not None:
             g['answered'] = True
             if r is None or not r['live']:
@@ -1203,6 +1209,8 @@ def _gen_notify(rng: random.Random) -> dict:
         ops.append(op)
         if rng.random() < 0.30:
             ops.append(['resume', rng.choice(guess[:4])])
+        elif rng.random() < 0.04:
+            ops.append(['stop'])
     for _ in range(rng.randint(0, 2 * n + 1)):
         ops.append(['resume', rng.choice(guess[:4])])
         if rng.random() < 0.3:
